@@ -2,3 +2,5 @@
 pub mod civil;
 pub mod value;
 pub mod strings;
+pub mod numfmt;
+pub mod formula;
